@@ -410,6 +410,92 @@ func (sp *spec) build() (func(), func(x *vsched.Exec) (string, error)) {
 			}
 			v, err := run(r, sp.call, Val{"in": "ignored"}, compose.WithCheckPointID("cp"))
 			results, errs = append(results, v), append(errs, err)
+		case "deepmodify0", "deepmodify1", "deepmodify2", "deepmodify3", "deepmodify4":
+			// "every nesting of stateful graphs": two stateful sibling sub-graphs s1, s2 below k stateless wrapper graphs
+			// (node path of length k+1), both interrupted inside, resumed with a caller-supplied modification that is
+			// addressed BY PATH (the only handle a caller has): +100 for the state at .../s1, +200 for the state at .../s2.
+			// Each state must come back unchanged apart from the modification addressed to it.
+			k := int(sp.shape[len(sp.shape)-1] - '0')
+			store := &memStore{m: map[string][]byte{}}
+			modeOpts := func() []compose.GraphCompileOption {
+				if sp.mode == "dag" {
+					return []compose.GraphCompileOption{compose.WithNodeTriggerMode(compose.AllPredecessor)}
+				}
+				return nil
+			}
+			leaf := func(name string) *compose.Graph[Val, Val] {
+				l := compose.NewGraph[Val, Val](compose.WithGenLocalState(func(ctx context.Context) *St { return &St{} }))
+				l.AddLambdaNode("x", compose.InvokableLambda(func(ctx context.Context, in Val) (Val, error) {
+					var c int
+					err := compose.ProcessState(ctx, func(ctx context.Context, s *St) error {
+						c, _ = s.einoGuardedSnapshot()
+						return nil
+					})
+					return Val{name: fmt.Sprintf("counter=%d", c)}, err
+				}))
+				l.AddEdge(compose.START, "x")
+				l.AddEdge("x", compose.END)
+				return l
+			}
+			var cur compose.AnyGraph
+			g3 := compose.NewGraph[Val, Val]()
+			for _, n := range []string{"s1", "s2"} {
+				g3.AddGraphNode(n, leaf(n), compose.WithGraphCompileOptions(append(modeOpts(), compose.WithInterruptBeforeNodes([]string{"x"}))...))
+				g3.AddEdge(compose.START, n)
+				g3.AddEdge(n, compose.END)
+			}
+			cur = g3
+			top := g3
+			var wantPrefix []string
+			for i := k; i >= 1; i-- {
+				key := fmt.Sprint("g", i)
+				wg := compose.NewGraph[Val, Val]()
+				wg.AddGraphNode(key, cur, compose.WithGraphCompileOptions(modeOpts()...))
+				wg.AddEdge(compose.START, key)
+				wg.AddEdge(key, compose.END)
+				cur, top = wg, wg
+				wantPrefix = append([]string{key}, wantPrefix...)
+			}
+			r, err := top.Compile(context.Background(), append(modeOpts(), compose.WithCheckPointStore(store))...)
+			if err != nil {
+				errs = append(errs, err)
+				return
+			}
+			_, err = run(r, sp.call, Val{"in": "x"}, compose.WithCheckPointID("cp"))
+			if _, isInt := compose.ExtractInterruptInfo(err); !isInt {
+				errs = append(errs, fmt.Errorf("expected an interrupt inside s1 and s2, got %v", err))
+				return
+			}
+			var paths []string
+			v, err := run(r, sp.call, Val{"in": "ignored"}, compose.WithCheckPointID("cp"),
+				compose.WithStateModifier(func(ctx context.Context, path compose.NodePath, state any) error {
+					pp := path.GetPath()
+					p := strings.Join(pp, "/")
+					s, ok := state.(*St)
+					if !ok || len(pp) == 0 {
+						return nil
+					}
+					vsched.HLock()
+					paths = append(paths, p)
+					vsched.HUnlock()
+					switch pp[len(pp)-1] {
+					case "s1":
+						s.einoGuardedAdd(100)
+					case "s2":
+						s.einoGuardedAdd(200)
+					}
+					return nil
+				}))
+			results, errs = append(results, v), append(errs, err)
+			if err == nil {
+				sort.Strings(paths)
+				wantPaths := []string{strings.Join(append(append([]string{}, wantPrefix...), "s1"), "/"), strings.Join(append(append([]string{}, wantPrefix...), "s2"), "/")}
+				if fmt.Sprint(paths) != fmt.Sprint(wantPaths) {
+					errs = append(errs, fmt.Errorf("state modifier after resume: it was called for the states at paths %v, the stateful graphs of this run are at %v", paths, wantPaths))
+				} else if got, want := gprog.Canon(v), gprog.Canon(Val{"s1": "counter=100", "s2": "counter=200"}); got != want {
+					errs = append(errs, fmt.Errorf("state modifier after resume: each nested state must come back with the modification addressed to its path: got %s, expected %s", got, want))
+				}
+			}
 		case "resume":
 			// state is carried unchanged across interrupt/resume, apart from the caller's modification
 			store := &memStore{m: map[string][]byte{}}
@@ -481,6 +567,9 @@ func (sp *spec) build() (func(), func(x *vsched.Exec) (string, error)) {
 			if e != nil {
 				return "", fmt.Errorf("run failed: %v", e)
 			}
+		}
+		if strings.HasPrefix(sp.shape, "deepmodify") {
+			return gprog.Canon(results[0]), nil
 		}
 		if w.idErr != "" {
 			return "", fmt.Errorf("state object not stable: %s", w.idErr)
@@ -690,13 +779,13 @@ func (sp *spec) build() (func(), func(x *vsched.Exec) (string, error)) {
 
 func main() {
 	c := harness.Init("C11")
-	c.Res.Rule = "scenario = stateful graph (Pregel / all-predecessor / eager Workflow) with 2-3 parallel nodes x which state users are present (state pre-handlers, post-handlers, ProcessState in node bodies; each a read-yield-write increment with enter/exit markers in the state's log) x shape (fan-out of 2 or 3, fan-out of 2 in which one ProcessState callback panics while it holds the state (the sibling must not hang), fan-out of 2 with STREAM state handlers that return lazily converted streams whose convert function calls ProcessState, stateful nested graph next to a parent node, two concurrent runs of one compiled graph, interrupt-after + resume with a StateModifier, a stateful sub-graph node carrying the parent's state handlers that is interrupted inside (interrupt-before an inner node / an inner node asking for its re-run) and resumed, an eager Workflow resumed with two restored tasks and a successor that starts while one of them is still running) x Invoke/Stream; every interleaving of executor goroutines, run loop and callers within the preemption bound, both map orders; distinct/non-trivial = distinct scheduling signatures of scenarios with >= 2 of them"
+	c.Res.Rule = "scenario = stateful graph (Pregel / all-predecessor / eager Workflow) with 2-3 parallel nodes x which state users are present (state pre-handlers, post-handlers, ProcessState in node bodies; each a read-yield-write increment with enter/exit markers in the state's log) x shape (fan-out of 2 or 3, fan-out of 2 in which one ProcessState callback panics while it holds the state (the sibling must not hang), fan-out of 2 with STREAM state handlers that return lazily converted streams whose convert function calls ProcessState, stateful nested graph next to a parent node, two concurrent runs of one compiled graph, interrupt-after + resume with a StateModifier, two stateful sibling sub-graphs below 0-4 stateless wrapper graphs (node paths of length 1-5) interrupted inside and resumed with a modification addressed by path, a stateful sub-graph node carrying the parent's state handlers that is interrupted inside (interrupt-before an inner node / an inner node asking for its re-run) and resumed, an eager Workflow resumed with two restored tasks and a successor that starts while one of them is still running) x Invoke/Stream; every interleaving of executor goroutines, run loop and callers within the preemption bound, both map orders; distinct/non-trivial = distinct scheduling signatures of scenarios with >= 2 of them"
 	c.Res.Assumptions = []string{
 		"sequential consistency at synchronisation granularity; critical-section bodies are atomic apart from their explicit yield",
 		"no happens-before state caching: a missing lock makes the state plain shared memory",
 		harness.RacePassAssumption + "; here the harness's own accesses to the state object inside handlers / ProcessState count as eino-owned (the state is what eino must serialise) and are attributed to the eino function that called the handler",
 	}
-	c.Res.Explanation = "stateless exhaustive exploration of real stateful graph runs; oracle per execution: counter equals the number of increments (no lost update), enter/exit markers never interleave (mutual exclusion), pre-handler before body before post-handler per node, handler return values are what the node and END receive, one state object per run and a distinct one per nested stateful graph and per concurrent run, after interrupt+resume the state equals the state at the interrupt plus the StateModifier's change, and a sub-graph node interrupted inside and resumed leaves each of the parent's state handlers on it in the parent state exactly once. " + harness.RacePassExplanation
+	c.Res.Explanation = "stateless exhaustive exploration of real stateful graph runs; oracle per execution: counter equals the number of increments (no lost update), enter/exit markers never interleave (mutual exclusion), pre-handler before body before post-handler per node, handler return values are what the node and END receive, one state object per run and a distinct one per nested stateful graph and per concurrent run, after interrupt+resume the state equals the state at the interrupt plus the StateModifier's change, a modification addressed by node path reaches exactly the nested state at that path (at every nesting depth 1-5), and a sub-graph node interrupted inside and resumed leaves each of the parent's state handlers on it in the parent state exactly once. " + harness.RacePassExplanation
 	quick := c.Quick()
 	rp := c.StartRacePass("./checks/c11") // worker 0 only: native -race build of this package, free runs of the scenario bodies
 	bounds := []int{0, 1, 2}
@@ -705,9 +794,9 @@ func main() {
 	}
 	type users struct{ pre, post, process bool }
 	us := []users{{false, false, true}, {true, true, false}, {true, true, true}, {false, true, true}, {true, false, true}}
-	for _, shape := range []string{"fan2", "fan2lazy", "fan2panic", "nested", "tworuns", "resume", "subresume-before", "subresume-rerun", "wfresume", "fan3"} {
+	for _, shape := range []string{"fan2", "fan2lazy", "fan2panic", "nested", "tworuns", "resume", "subresume-before", "subresume-rerun", "wfresume", "fan3", "deepmodify0", "deepmodify1", "deepmodify2", "deepmodify3", "deepmodify4"} {
 		for _, mode := range []string{"pregel", "dag", "workflow"} {
-			if mode == "workflow" && (shape == "nested" || shape == "resume" || strings.HasPrefix(shape, "subresume")) {
+			if mode == "workflow" && (shape == "nested" || shape == "resume" || strings.HasPrefix(shape, "subresume") || strings.HasPrefix(shape, "deepmodify")) {
 				continue
 			}
 			if shape == "wfresume" && mode != "workflow" {
@@ -718,6 +807,9 @@ func main() {
 					if shape == "fan2panic" && !(u.process && !u.pre && !u.post) {
 						continue // only the ProcessState users
 					}
+					if strings.HasPrefix(shape, "deepmodify") && !(u.process && !u.pre && !u.post) {
+						continue // the shape has its own state users
+					}
 					if shape == "fan2lazy" && !(u.process && (u.pre || u.post)) {
 						continue // needs a stream handler and a body that uses the state next to it
 					}
@@ -727,13 +819,13 @@ func main() {
 					if quick && shape == "tworuns" && (call == "stream" || (u.pre && u.post && u.process)) {
 						continue
 					}
-					if quick && call == "stream" && !(u.pre && u.post) {
+					if quick && call == "stream" && !(u.pre && u.post) && !strings.HasPrefix(shape, "deepmodify") {
 						continue
 					}
 					sp := &spec{mode: mode, shape: shape, pre: u.pre, post: u.post, process: u.process, yield: true, call: call, lazy: shape == "fan2lazy"}
 					sp.name = fmt.Sprintf("%s/%s/pre%v-post%v-process%v/%s", shape, mode, u.pre, u.post, u.process, call)
 					b := bounds
-					if shape == "resume" || strings.HasPrefix(shape, "subresume") {
+					if shape == "resume" || strings.HasPrefix(shape, "subresume") || strings.HasPrefix(shape, "deepmodify") {
 						b = []int{0}
 					} else if mode == "workflow" && (shape == "tworuns" || shape == "fan3") {
 						// eager mode starts every node in its own goroutine: 7 threads; one bound less
@@ -745,6 +837,8 @@ func main() {
 					sc := harness.Scenario{Name: sp.name, Bounds: b, MaxExecs: 1_500_000, New: sp.build, Signature: func(err error) string {
 						s := err.Error()
 						switch {
+						case strings.Contains(s, "state modifier after resume"):
+							return "state-modifier-wrong-path"
 						case strings.Contains(s, "lost update"):
 							return "lost-update"
 						case strings.Contains(s, "overlap"):
